@@ -32,7 +32,7 @@ class Gen:
     def value(self, avail, in_cb):
         r = self.r
         k = r() % 10
-        if k < 5 or not avail:
+        if k < 4 or not avail:
             return "#%d" % (r() % 9)
         if k < 8:
             return "$%d" % avail[r() % len(avail)]
@@ -53,10 +53,16 @@ class Gen:
                 avail.append(v)
                 self.resolvers.append(v)
                 local_resolvers.append(v)
-            elif k < 40 and local_resolvers:
+            elif k < 48 and local_resolvers:
                 i = local_resolvers[r() % len(local_resolvers)]
-                out.append(("r" if r() % 4 else "j", i, self.value(avail, in_cb) if r() % 4 else "#%d" % (r() % 9)))
-            elif k < 70 and avail:
+                pv = [v for v in avail if v != i]
+                val = "$%d" % pv[r() % len(pv)] if pv and r() % 2 else (self.value(avail, in_cb) if r() % 4 else "#%d" % (r() % 9))
+                out.append(("r" if r() % 4 else "j", i, val))
+                if r() % 3 == 0:
+                    # settle the same promise again (the resolving functions are latched after the first call, even
+                    # when that call only locked the promise onto another promise)
+                    out.append(("r" if r() % 2 else "j", i, "#%d" % (r() % 9)))
+            elif k < 74 and avail:
                 i = avail[r() % len(avail)]
                 f = self.handler(depth - 1, avail) if r() % 5 else None
                 g = self.handler(depth - 1, avail) if r() % 3 == 0 else None
@@ -106,7 +112,26 @@ class Gen:
             self.bodies[idx] = {"tag": self.fresh_tag(), "ops": ops, "res": res}
         return idxs[0]
 
+    def wide_program(self, n):
+        """n independent two-step chains queued in one turn (more jobs pending at once than any batch size)"""
+        self.bodies.append(None)
+        ops = []
+        for k in range(n):
+            v = self.fresh_var()
+            ops.append(("q", v, "#%d" % (k % 9)))
+            h1 = len(self.bodies)
+            self.bodies.append({"tag": self.fresh_tag(), "ops": [], "res": ("ret", "@")})
+            h2 = len(self.bodies)
+            self.bodies.append({"tag": self.fresh_tag(), "ops": [], "res": ("ret", "#0")})
+            w = self.fresh_var()
+            ops.append(("t", v, h1, None, w))
+            ops.append(("t", w, h2, None, self.fresh_var()))
+        self.bodies[0] = {"tag": 0, "ops": ops, "res": ("ret", "#0")}
+        return self.bodies
+
     def program(self):
+        if self.r() % 25 == 0:
+            return self.wide_program(65 + self.r() % 70)
         self.bodies.append(None)
         ops, av = self.ops(2, [], False, 4 + self.r() % 8)
         self.bodies[0] = {"tag": 0, "ops": ops, "res": ("ret", "#0")}
